@@ -6,13 +6,14 @@ source into `Gen/PyFun.lean`; the model's `inDir` (`direction.opposite` of an op
 import RigModel.Model.C10
 import RigModel.Gen.PyFun
 import Mathlib.Tactic.SplitIfs
+import RigModel.Lemmas.IntBits
 set_option linter.unusedSimpArgs false
 set_option linter.unusedVariables false
 set_option linter.unusedTactic false
 set_option linter.unreachableTactic false
 
 namespace Rig.C10
-open Rig.Gen
+open Rig.Gen Rig.Gen.Router Rig.IntBits
 
 /-- the Python outcome of `Routes.opposite` in the model's vocabulary -/
 def ofPy : Except String Int → Except Err (Option Nat)
@@ -32,5 +33,77 @@ theorem gen_inDir (r : Nat) : inDir (some r) = ofPy (PyFun.Routes_opposite r) :=
 
 /-- `None` has no direction to reverse -/
 example : inDir none = .ok none := rfl
+
+/-! ### `unpack_routing_table_entry` (third round: `struct.unpack(consts.RTE_PACK_STRING, packed)`, a set
+comprehension over `Routes`, an optional result) -/
+
+def bytesInt (d : List Nat) : List Int := d.map (fun (n : Nat) => (n : Int))
+
+/-- the model's outcome as the Python outcome: `struct.error` / `None` / `(RoutingTableEntry(routes, key, mask),
+app_id, core)` (the entry as the triple of its constructor arguments, the route set as the list of its members
+in the order of the enumeration) -/
+def unpackPy : Option (Option Dec) → Except String (Option ((List Int × Int × Int) × Int × Int))
+  | none => .error "struct.error"
+  | some none => .ok none
+  | some (some d) => .ok (some ((d.routes.map (fun (r : Nat) => (r : Int)), (d.key : Int), (d.mask : Int)),
+                                 (d.app : Int), (d.core : Int)))
+
+theorem unpackEntry_len (bs : List Nat) (h : bs.length ≠ 16) : unpackEntry bs = none := by
+  unfold unpackEntry
+  split
+  · simp at h
+  · rfl
+
+/-- the route filter: bit `r` of the route word, tested the Python way, over the member values of `Routes` -/
+theorem routes_filter (route : Nat) (l : List Nat) :
+    (l.map (fun (r : Nat) => (r : Int))).filter (fun (r : Int) => decide (Int.land ((route : Int) >>> r.toNat) 1 ≠ 0))
+      = (l.filter (fun r => (route >>> r) &&& 1 = 1)).map (fun (r : Nat) => (r : Int)) := by
+  induction l with
+  | nil => rfl
+  | cons a t ih =>
+    have e : (Int.land ((route : Int) >>> ((a : Int)).toNat) 1 ≠ 0) ↔ ((route >>> a) &&& 1 = 1) := by
+      rw [Int.toNat_natCast, shr_natCast, one_natCast, land_natCast, Nat.and_one_is_mod]
+      omega
+    rw [List.map_cons, List.filter_cons, List.filter_cons, ih]
+    by_cases h : (route >>> a) &&& 1 = 1
+    · have h' := e.mpr h
+      rw [if_pos (decide_eq_true h'), if_pos (decide_eq_true h), List.map_cons]
+    · have h' : ¬ (Int.land ((route : Int) >>> ((a : Int)).toNat) 1 ≠ 0) := fun x => h (e.mp x)
+      rw [if_neg (fun x => h' (of_decide_eq_true x)), if_neg (fun x => h (of_decide_eq_true x))]
+
+/-- `unpack_routing_table_entry` as written in the source = the model's `unpackEntry`, for every byte string -/
+theorem gen_unpack_routing_table_entry (bs : List Nat) :
+    PyFun.unpack_routing_table_entry (bytesInt bs) = unpackPy (unpackEntry bs) := by
+  unfold PyFun.unpack_routing_table_entry PyFun.pyStructUnpack
+  have hsz : PyFun.pyStructSize [PyFun.PyFmt.H, PyFun.PyFmt.H, PyFun.PyFmt.I, PyFun.PyFmt.I, PyFun.PyFmt.I] = 16 := rfl
+  have hlen : (bytesInt bs).length = bs.length := by simp [bytesInt]
+  rw [hsz, hlen]
+  by_cases h : bs.length = 16
+  swap
+  · simp only [h, if_false, unpackEntry_len bs h, unpackPy]
+  simp only [h, if_true]
+  match bs, h with
+  | [x0, x1, f0, f1, r0, r1, r2, r3, k0, k1, k2, k3, m0, m1, m2, m3], _ =>
+    have hv : PyFun.pyStructValues false [PyFun.PyFmt.H, PyFun.PyFmt.H, PyFun.PyFmt.I, PyFun.PyFmt.I, PyFun.PyFmt.I]
+        (bytesInt [x0, x1, f0, f1, r0, r1, r2, r3, k0, k1, k2, k3, m0, m1, m2, m3])
+        = [((x0 + 256 * x1 : Nat) : Int), ((f0 + 256 * f1 : Nat) : Int), ((word32 r0 r1 r2 r3 : Nat) : Int),
+           ((word32 k0 k1 k2 k3 : Nat) : Int), ((word32 m0 m1 m2 m3 : Nat) : Int)] := by
+      simp [bytesInt, PyFun.pyStructValues, PyFun.PyFmt.size, PyFun.pyLeValue, word32]
+      refine ⟨?_, ?_, ?_⟩ <;> omega
+    rw [hv]
+    simp only [List.getD_cons_zero, List.getD_cons_succ, unpackEntry]
+    have hlit : ([0, 1, 2, 3, 4, 5, 6, 7, 8, 9, 10, 11, 12, 13, 14, 15, 16, 17, 18, 19, 20, 21, 22, 23] : List Int)
+        = routesValues.map (fun (r : Nat) => (r : Int)) := by decide
+    rw [hlit, routes_filter]
+    have e1 : (Int.land ((word32 r0 r1 r2 r3 : Nat) : Int) 4278190080 = 4278190080)
+        ↔ (word32 r0 r1 r2 r3 &&& 0xff000000 = 0xff000000) := by
+      rw [show (4278190080 : Int) = ((4278190080 : Nat) : Int) from rfl, land_natCast]; omega
+    have e1' : ((4278190080 : Int) = Int.land ((word32 r0 r1 r2 r3 : Nat) : Int) 4278190080)
+        ↔ (word32 r0 r1 r2 r3 &&& 0xff000000 = 0xff000000) := by
+      rw [show (4278190080 : Int) = ((4278190080 : Nat) : Int) from rfl, land_natCast]; omega
+    by_cases hr : word32 r0 r1 r2 r3 &&& 0xff000000 = 0xff000000
+    · simp only [e1, e1', hr, if_true, unpackPy]
+    · simp only [e1, e1', hr, if_false, unpackPy]
+      simp (disch := decide) only [lit_natCast, land_natCast, shr_natCast, Int.toNat_natCast]
 
 end Rig.C10
